@@ -41,6 +41,11 @@ def gen_junk(rng, long_ok=True):
         return rng.choice(['"', "'", '""', "''", '"a b"', "'x' : 'y'", '"."', "\"':.\""]), "quotes"
     if k == 5:
         return "".join(rng.choice(" .:\tab1-") for _ in range(rng.randint(1, 25))), "grammar-chars"
+    if k == 6 and rng.random() < 0.35:
+        # parsable lines whose value is an extreme numeric literal (item construction happens outside the guarded regex step)
+        v = rng.choice(["9" * rng.randint(19, 40), "-" + "9" * 25, "1" + "0" * 400, "1e999", "-1E400", "0." + "0" * 400 + "1", "1e-400", "9223372036854775808",
+                        "0" * 30, "1.5e308", "1_000", "１２"])
+        return rng.choice(["Q. %s : d", "Q.M %s :", "Q : %s", "Q.%s : x"]) % v, "extreme-number"
     if k == 6:
         return rng.choice(["junk", "no period here", "x", "1 2 3", "-999.25 -999.25", "12:30:00", "a:b", ":a.b", ". :", ".:", " . ", "..:", "a..b", "..", "A.B C:D:E",
                            "STRT", "STRT.M", "STRT M 5", "NULL", "VERSx. 1", "XVERS. 2 : d", "nul. 5 :", "WRAPPED. YES", "D.L.M : 5"]), "words"
